@@ -448,7 +448,7 @@ func c03Cases(thorough bool) []*depCase {
 	}
 	// single and double deviations on a reduced core
 	coreH := []uint64{c03Mature, c03Immature}
-	corePos := []pn{{0, 4}, {2, 3}, {1, 2}}
+	corePos := []pn{{0, 1}, {0, 4}, {2, 3}, {1, 2}}
 	for _, k := range kinds {
 		for _, h := range coreH {
 			for _, p := range corePos {
